@@ -70,6 +70,16 @@ def alphabet(seed):
                 re[(g // 2) % 2] = -abs(re[(g // 2) % 2])
             p[k] = (re, im)
         pts.append(p)
+    rng2 = np.random.default_rng(104729 + 31 * int(seed))      # separate stream: matrix-valued keys P, Q, R on (S, S)
+    for g in range(4):
+        for k in "PQR":
+            re = rng2.uniform(.4, 1.3, (NPIX, NPIX))
+            im = rng2.uniform(.3, .8, (NPIX, NPIX)) * rng2.choice([-1., 1.], (NPIX, NPIX))
+            if g % 2 == 1:
+                re[g // 2, (g // 2 + "PQR".index(k)) % 2] *= -1.
+            pts[g][k] = (re, im)
+    A["cm"] = rng2.uniform(.5, 1.5, (NPIX, NPIX))
+    A["cmi"] = rng2.uniform(.3, .8, (NPIX, NPIX)) * rng2.choice([-1., 1.], (NPIX, NPIX))
     A["points"] = pts
     return A
 
@@ -218,6 +228,9 @@ class Env:
             A["d"] = A["d"] + 1j * A["di"]
         self.A = A
         self.S = ift.DomainTuple.make(ift.RGSpace(NPIX))
+        self.SS = ift.DomainTuple.make((ift.RGSpace(NPIX), ift.RGSpace(NPIX)))
+        if cplx:
+            A["cm"] = A["cm"] + 1j * A["cmi"]
         S = self.S
         self.cF = ift.makeField(S, A["c"])
         self.dF = ift.makeField(S, A["d"])
@@ -228,6 +241,10 @@ class Env:
         self._cache = {}
 
     # lazily built library objects (energies, jax operators)
+    def dom_of(self, key):
+        """input keys a, b, c, x live on S; the matrix-valued keys P, Q, R on (S, S)"""
+        return self.SS if key.isupper() else self.S
+
     def obj(self, name):
         if name in self._cache:
             return self._cache[name]
